@@ -183,6 +183,14 @@ func (idx *FlatIndex) Add(vector VectorNode) error {
 		return err
 	}
 
+	// Re-adding a soft-deleted ID: purge the stale entry first, otherwise the
+	// pending delete would hide (and the next Flush would drop) the new vector
+	if idx.deletedNodes.Contains(vector.ID()) {
+		if err := idx.flushLocked(); err != nil {
+			return err
+		}
+	}
+
 	// Simply append the preprocessed vector to our flat storage
 	idx.vectors = append(idx.vectors, vector)
 	return nil
@@ -267,6 +275,13 @@ func (idx *FlatIndex) Flush() error {
 	idx.mu.Lock()
 	defer idx.mu.Unlock()
 
+	return idx.flushLocked()
+}
+
+// flushLocked is the body of Flush: it hard deletes all soft-deleted vectors.
+//
+// CONCURRENCY: This is an internal helper method. The caller MUST hold the write lock.
+func (idx *FlatIndex) flushLocked() error {
 	// Quick exit if nothing to flush
 	deletedCount := int(idx.deletedNodes.GetCardinality())
 	if deletedCount == 0 {
